@@ -28,7 +28,7 @@ import core
 from ser import rat
 
 LEAN_MODULE = "Optyx.Props.C06b"
-EXTRA_MODULES = ["Optyx.Props.PinsC06", "Optyx.Props.SolveTie", "Optyx.Props.ConstraintTie", "Optyx.Props.C06Source"]   # transcription anchors (harness/source_pins.py)
+EXTRA_MODULES = ["Optyx.Props.PinsC06", "Optyx.Props.SolveTie", "Optyx.Props.ConstraintTie", "Optyx.Props.C06Source", "Optyx.Props.BuildTie"]   # transcription anchors (harness/source_pins.py)
 THEOREMS = [
     "Optyx.Props.C06.pass_optimal_feasible",
     "Optyx.Props.C06.scipy_optimal_feasible",
@@ -51,6 +51,8 @@ THEOREMS = [
     "Optyx.Props.ConstraintTie.senses_solve_eq",
     "Optyx.Props.C06Source.optimal_feasible_of_source_equations",
     "Optyx.Props.C06Source.status_optimal",
+    "Optyx.Props.BuildTie.compile_step",
+    "Optyx.Props.BuildTie.compileVec_step",
     "Optyx.Props.PinsC06.anchors",
 ]
 ASSUMPTIONS = [
